@@ -223,6 +223,8 @@ def run(rep, tier):
     prog = gentypes.types_program()
     run_union(rep, prog, 'C02')
     run_union_serialize(rep, prog)
+    from checks import c02obj
+    c02obj.run(rep, prog)
     ops = [{'op': 'gen_union', 'doc': '{"obj":{"foo":1},"type":"obj"}'}, {'op': 'gen_union', 'doc': '{"type":"zzz","zzz":[1]}'},
            {'op': 'gen_union', 'doc': '{"zzz":1,"type":"yyy"}'}, {'op': 'gen_object', 'doc': '{"req":1,"s":"x","sl":5,"e":"ONE"}'},
            {'op': 'gen_object', 'doc': '{"req":1,"s":"x","sl":9007199254740992,"e":"ONE"}'}, {'op': 'gen_object', 'doc': '{"req":null,"s":"x","sl":5,"e":"ONE"}'}]
@@ -233,8 +235,8 @@ def run(rep, tier):
         if (r.get('default'), r.get('exhaustive')) != w:
             rep.violation('C02:native-twin', f'{o}: native {r}, expected {w}', {'op': o, 'native': r})
     rep.assumptions += ['documents arrive as key/value events (JSON text parsing is serde_json); payload decoding is an abstract success/failure per member',
-                        'serde-derive expansions of generated objects are exercised natively only (twins); the hand-written union protocol is decided symbolically']
-    rep.outside += ['every valid Conjure definition: only the IR family of /verif/gen-crates/types', 'object field protocols (serde-derive output), aliases, primitives in their encodings (C15, C16, C01 cover the leaves)']
+                        'the serde-derive expansion of the generated object ObjD and the hand-written union protocol are executed from MIR; field payloads are abstract tokens (decodes / does not decode)']
+    rep.outside += ['every valid Conjure definition: only the IR family of /verif/gen-crates/types', 'objects other than ObjD, aliases, primitives in their encodings (C15, C16, C01 cover the leaves)']
 
 
 def run_union_serialize(rep, prog):
